@@ -93,6 +93,14 @@ def main():
                     continue
                 d["api"] = raws[i]
                 ck.violation("%s: %s" % (what[f], json.dumps({k: d[k] for k in ("profile", "schedule", "definition", "child_definition", "inputs") if k in d})[:1500]), {"case": d, "monitor": f})
+    for i, x in enumerate(raws):
+        if not x["reads_stable"]:
+            d = desc(cdesc[i])
+            d["api"] = x
+            ck.violation("reading the history changed it: GetExecutionHistory (forward, then reverseOrder) answered differently when asked a second time: %s"
+                         % json.dumps({"first": [e.get("id") for e in x["history"]][:12], "second": [e.get("id") for e in (x["second_forward_read"] or [])][:12] if isinstance(x["second_forward_read"], list) else x["second_forward_read"]}),
+                         {"case": d, "monitor": "reads_stable"})
+            break
     print("api done at %.0fs" % (_t.time() - ck.t0), file=sys.stderr)
     ck.add_group("api", len(cases), sum(1 for x in raws if len(x["history"]) > 4), [{"run": desc(cdesc[0]), "api": raws[0]}] if raws else [],
                  events=sum(len(x["history"]) for x in raws), express=sum(1 for i in cdesc if i.profile == "express"))
